@@ -1,7 +1,7 @@
 #!/bin/bash
 # tools/seed_matrix.sh <out.tsv> <Cxx:n:checks> ...   run checks against seeded changes in a scratch worktree (never in /repo)
 OUT=$1; shift
-WT=/tmp/seedrun
+WT=${SEED_WT:-/tmp/seedrun}
 [ -d $WT ] || git -C /repo worktree add -q --detach $WT HEAD
 for spec in "$@"; do
   IFS=: read id n checks <<< "$spec"
